@@ -4,7 +4,7 @@ From Coq Require Import List NArith ZArith Bool Lia.
 Import ListNotations.
 From JB Require Import Constants Bytes Utf8 Num NumProofs Value Codec Order OrderProofs CodecProofs RoundtripProofs DispatchProofs
   TreeOps Path PathSem Dispatch Walk WalkProofs CompareWalk CompareWalkProofs SelWalk.
-From JB Require TreeWf ModeProofs.
+From JB Require TreeWf ModeProofs EvalProofs.
 Open Scope N_scope.
 Set Default Timeout 120.
 
@@ -690,3 +690,42 @@ Proof. intros H T. unfold path_match_w. rewrite (is_jsonb_enc v H T). apply sel_
 Theorem select_w_frame v ps m pre : wfb v = true ->
   select_w (enc v) ps m pre = ModeProofs.shift_result pre (select_w (enc v) ps m []).
 Proof. intros H. rewrite !(select_w_enc v ps m _ H). apply ModeProofs.select_frame. Qed.
+
+(* ---------------------------------------------------------------- consequences at byte level *)
+(* on paths of the parser's image (EvalProofs.step_ok / expr_ok) the selector never panics on an encoding *)
+Theorem select_w_never_panics v ps m buf k : wfb v = true ->
+  match ps with
+  | PCurrent :: r => False
+  | PRoot :: r => forallb (EvalProofs.step_ok k) r = true
+  | [PPredicate e] => EvalProofs.expr_ok k e = true
+  | r => forallb (EvalProofs.step_ok k) r = true
+  end -> select_w (enc v) ps m buf <> Panic.
+Proof.
+  intros H Hp. rewrite (select_w_enc v ps m buf H). unfold select_t.
+  pose proof (EvalProofs.find_positions_np PATH_FUEL (normalise v) None ps k) as NP.
+  assert (NP' : find_positions PATH_FUEL (normalise v) None ps <> Panic).
+  { apply NP. destruct ps as [|[] r]; try exact Hp. contradiction. }
+  destruct (find_positions PATH_FUEL (normalise v) None ps); cbn [bind]; [|discriminate|contradiction].
+  destruct (is_predicate ps); discriminate.
+Qed.
+
+Section BytesModes.
+  Variables (v : value) (ps : list path) (items : list value).
+  Hypothesis Hwf : wfb v = true.
+  Hypothesis Hsel : find_positions PATH_FUEL (normalise v) None ps = Ok items.
+  Hypothesis Hnp : is_predicate ps = false.
+  Lemma select_w_first_is_head buf :
+    select_w (enc v) ps MFirst buf = Ok (match items with [] => (buf, []) | x :: _ => (buf ++ enc x, [lenN buf + lenN (enc x)]) end).
+  Proof. rewrite (select_w_enc v ps MFirst buf Hwf). apply (ModeProofs.first_is_head (normalise v) ps items Hsel Hnp). Qed.
+  Lemma select_w_array_holds_all buf :
+    select_w (enc v) ps MArray buf = Ok (buf ++ enc (VArr items), [lenN buf + lenN (enc (VArr items))]).
+  Proof. rewrite (select_w_enc v ps MArray buf Hwf). apply (ModeProofs.array_holds_all (normalise v) ps items Hsel Hnp). Qed.
+  Lemma select_w_mixed buf :
+    select_w (enc v) ps MMixed buf = if (1 <? length items)%nat then select_w (enc v) ps MArray buf else select_w (enc v) ps MAll buf.
+  Proof. rewrite !(select_w_enc v ps _ buf Hwf). apply (ModeProofs.mixed_def (normalise v) ps items Hsel Hnp). Qed.
+  Lemma sel_exists_w_iff_nonempty : sel_exists_w (enc v) ps = Ok (negb (match items with [] => true | _ => false end)).
+  Proof. rewrite (sel_exists_w_enc v ps Hwf). apply (ModeProofs.exists_iff_nonempty (normalise v) ps items Hsel Hnp). Qed.
+  Lemma select_w_offsets_delimit :
+    exists data offs, select_w (enc v) ps MAll [] = Ok (data, offs) /\ ModeProofs.cut data 0 offs = map enc items.
+  Proof. rewrite (select_w_enc v ps MAll [] Hwf). apply (ModeProofs.offsets_delimit (normalise v) ps items Hsel Hnp). Qed.
+End BytesModes.
